@@ -127,7 +127,7 @@ pub fn decode_parse(data: &[u8]) -> (Input, Feed) {
     let spec = Spec {
         parser,
         lit: (b & 7) % 5,
-        flag: b & 0x80 != 0 && parser.is_dimacs(),
+        flag: b & 0x80 != 0 && Spec::flag_applies(parser),
     };
     let feed = decode_feed(&mut c);
     (
@@ -187,7 +187,7 @@ pub fn decode_history(data: &[u8]) -> History {
     let data = c.rest().to_vec();
     if fail % 4 == 1 {
         let k = (fail_frac as usize * (data.len() + 1)) >> 16;
-        feed.sched.fail_at = Some((k, ErrKind::all()[(fail / 4) as usize % 7]));
+        feed.sched.fail_at = Some((k, ErrKind::all()[(fail / 4) as usize % 15]));
     }
     if over % 5 == 1 {
         feed.sched.overreport = Some((1 + (over / 5) as u32 % 5, (over / 25) as u32));
@@ -226,7 +226,7 @@ pub fn decode_whistory(data: &[u8]) -> WHistory {
             }),
             6 => SinkStep::Intr,
             7 => SinkStep::Zero,
-            8 => SinkStep::Fail(ErrKind::all()[a as usize % 7]),
+            8 => SinkStep::Fail(ErrKind::all()[a as usize % 15]),
             _ => SinkStep::Panic,
         });
     }
